@@ -49,7 +49,7 @@ def run_case(case, ctx):
 	E = S if case['explicit'] else None
 	qmode, rmode = case['qmode'], case['rmode']
 	nq, nr = case['nq'], case['nr']
-	plant = tuple({'ATGAC', S[1]})
+	plant = tuple(sorted({'ATGAC', S[1]}))
 	genomes = H.make_genomes(case['seed'], nq + nr, nanc=case['nanc'], plant=plant)
 	qgen, rgen = genomes[:nq], genomes[nq:]
 	d = ctx.fresh_dir('c16')
